@@ -420,25 +420,24 @@ impl Scala {
             .try_for_each(|comment| self.write_comment(w, indent, comment))
     }
 
+    /// The innermost package segment: `c` for `a.b.c`, the whole name when it has no dot.
+    fn last_package_segment(&self) -> &str {
+        self.package
+            .rsplit_once('.')
+            .map_or(self.package.as_str(), |(_parent, last)| last)
+    }
+
     fn begin_package_object(&mut self, w: &mut dyn Write) -> std::io::Result<()> {
-        match self.package.rsplit_once('.') {
-            None => {}
-            Some((_parent, last)) => {
-                writeln!(w, "package object {} {{", last)?;
-                writeln!(w)?;
-            }
-        };
+        // Always opens the block that `end_package_object` closes.
+        writeln!(w, "package object {} {{", self.last_package_segment())?;
+        writeln!(w)?;
         Ok(())
     }
 
     fn begin_package(&mut self, w: &mut dyn Write) -> std::io::Result<()> {
-        match self.package.rsplit_once('.') {
-            None => {}
-            Some((_parent, last)) => {
-                writeln!(w, "package {} {{", last)?;
-                writeln!(w)?;
-            }
-        };
+        // Always opens the block that `end_package` closes.
+        writeln!(w, "package {} {{", self.last_package_segment())?;
+        writeln!(w)?;
         Ok(())
     }
 
